@@ -69,7 +69,7 @@ fn junk() -> Vec<(&'static str, V)> {
         ("assertion", V::Map(vec![(V::Tag(201, Box::new(t("jp"))), V::Tag(201, Box::new(t("jo"))))]))]
 }
 fn kind(v: &V) -> String { match v { V::Array(_) => "array".into(), V::Map(_) => "map".into(), V::Tag(t, _) => format!("tag{t}"), V::Bytes(b) => format!("bytes{}", if b.len() == 32 { "32" } else { "N" }), V::U(_) => "uint".into(), V::Text(_) => "text".into(), _ => "other".into() } }
-fn mutations(c: &V, out: &mut Vec<(String, V)>, rebuild: &dyn Fn(V) -> V, in_leaf: bool) {
+pub fn mutations(c: &V, out: &mut Vec<(String, V)>, rebuild: &dyn Fn(V) -> V, in_leaf: bool) {
     if !in_leaf { for (n, j) in junk() { out.push((format!("replace-{}-by-{}", kind(c), n), rebuild(j))) } }
     match c {
         V::Array(v) if !in_leaf => {
@@ -168,7 +168,7 @@ fn handwritten() -> Vec<(String, Vec<u8>)> {
     out
 }
 
-fn seeds(w: usize) -> Vec<(String, Vec<u8>)> {
+pub fn seeds(w: usize) -> Vec<(String, Vec<u8>)> {
     let mut out = vec![];
     let key = bind::key0();
     let mut trees = families::plain(w); trees.extend(families::decode_only());
